@@ -12,7 +12,7 @@ sys.path.insert(0, os.path.dirname(os.path.abspath(__file__)))
 import vlib, fam
 
 C12_CLAUSES = ["ExactlyOnce", "Addressee", "TrueSender", "PayloadEqual", "ReplyEqual", "OversizeRefused", "ImportantTruthful", "SendResult"]
-C13_CLAUSES = ["PairFifo", "StreamOnce"]
+C13_CLAUSES = ["PairFifo", "StreamOnce", "AfterRedial"]
 
 # configurations of the design model: (name, constants, PairFifo expected to hold)
 ORDER_CFGS = [
@@ -154,7 +154,8 @@ def c13_cases(tier, rng):
     add([st(n, 0, rs()), st(n, rs(), rs())], pool=3, delay="rotate")
     add([st(n, rs(), 0), st(n, rs(), rs())], pool=3, delay="rotate")
     add([st(n, 5, rs()), st(n, 7, rs())], pool=3, delay="link0", grow=True)
-    add([st(n, rs(), rs()), st(n, rs(), rs())], pool=3, delay="cut")
+    for pool in (2, 3):
+        add([st(n, rs(), rs()), st(n, rs(), rs()), st(n, rs(), rs())], pool=pool, delay="cut")
     for _ in range(4 if tier == "quick" else 400):
         k = rng.randint(1, 4)
         sts = []
